@@ -26,15 +26,15 @@ def check_stream(ctx, label, ops_path, impl_path, use_oracle=True, sample=False)
             want = spec.line(o)
             if want is None:
                 continue
-            nontrivial = " OK |" in i[:40] or i.startswith("200") or i.startswith("IDENTIFIED") or i.startswith("closed")
+            nontrivial = " OK |" in i[:40] or i.startswith(("200", "IDENTIFIED", "closed", "aborted"))
             ctx.count_case(o.split(" ", 1)[-1] + "@" + i[-80:], nontrivial=nontrivial)
             if want != i:
                 bad += 1
-                if bad <= 3:
+                if bad <= 3 and len(ctx.violations) < 5:   # a handful of distinct histories is enough
                     hist = e4.history_of(ops, idx)
                     what = ("after %d step(s) the answers differ from the plain registry: op `%s`; nsqlookupd: %s ; "
                             "registry predicts: %s" % (len(hist) - 2, o, first_diff(i, want)[0], first_diff(i, want)[1]))
-                    ctx.violation("c14:" + " ; ".join(normalise(h) for h in hist[-4:]), what, "\n".join(hist) + "\n")
+                    ctx.violation("c14:" + rel_ids(" ; ".join(normalise(h) for h in hist[-4:])), what, "\n".join(hist) + "\n")
         if sample:
             for k in (1, len(ops) // 2, len(ops) - 1):
                 ctx.add_sample({"op": ops[k], "impl": impl[k][:300]})
@@ -51,13 +51,25 @@ def first_diff(a, b):
     return a[:200], b[:200]
 
 
+def rel_ids(key):
+    """connection ids are fresh counters: name them by order of appearance so that the same history
+    found twice is one finding"""
+    import re
+    seen = {}
+
+    def sub(m):
+        seen.setdefault(m.group(2), "#%d" % (len(seen) + 1))
+        return m.group(1) + seen[m.group(2)]
+    return re.sub(r"\b((?:identify|register|unregister|ping|disconnect|abort) )(\d+)", sub, key)
+
+
 def normalise(line):
     w = line.split()
     return " ".join(w[1:]) if w and w[0].lstrip("-").isdigit() else line
 
 
 def replay(ctx, binp, path, label):
-    rc, out = e4.run_test(ctx, binp, "TestVerifE4Replay", {"VERIF_REPLAY": path}, timeout=300)
+    rc, out = e4.run_leg(ctx, binp, "TestVerifE4Replay", {"VERIF_REPLAY": path}, timeout=300)
     if rc != 0 or "E4-REPLAY-DONE" not in out:
         ctx.log("replay %s failed (rc=%s):\n%s" % (path, rc, out[-1500:]))
         return ["replay %s did not complete" % label]
@@ -76,7 +88,7 @@ RACE_WHAT = {
 
 def races(ctx, binp, only=None):
     """known findings (concurrency): replayed on every run, reported only if they reproduce"""
-    rc, out = e4.run_test(ctx, binp, "TestVerifE4Races", {"VERIF_MS": ctx.budget(1200, 4000)}, 300)
+    rc, out = e4.run_leg(ctx, binp, "TestVerifE4Races", {"VERIF_MS": ctx.budget(1200, 4000)}, 300)
     seen = {}
     for l in out.splitlines():
         w = l.split()
@@ -193,7 +205,7 @@ def run(ctx):
             broken += check_stream(ctx, "rnd_%d" % s, os.path.join(ctx.work, "rnd_%d.ops" % s),
                                    os.path.join(ctx.work, "rnd_%d.impl" % s), sample=(s == 0))
         # concurrent histories, quiescent points
-        rc, out = e4.run_test(ctx, binp, "TestVerifE4Concurrent", {"VERIF_N": ctx.budget(15, 150), "VERIF_LEN": 40}, 900)
+        rc, out = e4.run_leg(ctx, binp, "TestVerifE4Concurrent", {"VERIF_N": ctx.budget(15, 150), "VERIF_LEN": 40}, 900)
         if rc != 0:
             ctx.log("concurrent harness failed:\n" + out[-1500:])
             broken.append("concurrent harness exit %s" % rc)
